@@ -25,6 +25,7 @@ import KskmProofs.C14
 set_option linter.unusedSimpArgs false
 set_option linter.unusedVariables false
 namespace Kskm.C06
+open Kskm.C06L
 
 /-! ## KSR-DOMAIN -/
 
